@@ -47,7 +47,7 @@ class C07(VecCheck):
         for v in ("T", "U"):
             for c in fault_cases(v, caps, deep=False):
                 yield c, "faults-" + v
-        R = 4000 if tier == "quick" else 60000
+        R = 3000 if tier == "quick" else 60000
         for _ in range(R):
             yield random_case(rng, 30, variant=rng.choice("CCCM")), "random"
         for _ in range(R // 8):
